@@ -1,6 +1,7 @@
 -- FAMILIES: codec=TF.Drv.Codec.codec codec13=TF.Drv.Codec.codec derive=TF.Drv.Codec.derive
 import TF.Drv.Proto
 import TF.Model.Codec
+import TF.Gen.CodecLeaves
 /-!
 driver handlers for the codec families (C03 `codec`, C13 `codec13`, C14 `derive`)
 
@@ -87,7 +88,62 @@ def run (op : String) (args : List Arg) : Option String :=
       pure (fmtOutcome (decode ty seq))
   | _, _ => none
 
-def codec : Handler := run
+/-! ### P03: the leaf codecs regenerated from source (`TF/Gen/CodecLeaves.lean`) evaluated next to the hand model.
+The regenerated code works on raw Montgomery words: a sequence goes in through the translated `bfe_new`, encodings come
+back through the translated `bfe_value`; a panic of the regenerated code (`_ok = false`) is printed as `panic`. -/
+open TF.Gen TF.Gen.Loops in
+def fmtGenNat (ok : Bool) (r : Except String Nat) : String :=
+  if ok then (match r with | .ok n => s!"ok:{n}" | .error _ => "err") else "panic"
+
+open TF.Gen TF.Gen.Loops in
+def leafGen (op : String) (args : List Arg) : Option String :=
+  match op, args with
+  | "slen", [t] => do
+      let ty ← parseTy t
+      let sl ← (match ty with
+        | .u64 => some codec_u64_static_length | .u128 => some codec_u128_static_length
+        | .u8 => some codec_u8_static_length | .u16 => some codec_u16_static_length
+        | .u32 => some codec_u32_static_length | .bool => some codec_bool_static_length
+        | .bfe => some codec_bfe_static_length | _ => none)
+      pure (match sl with | some n => s!"ok:some:{n}" | none => "ok:none")
+  | "enc", [t, v] => do
+      let ty ← parseTy t
+      let val ← parseVal v
+      if !(hasTy ty val) then none else
+      let n := numOf val
+      let out (ok : Bool) (e : List Nat) : String := if ok then "ok:" ++ fmtList (e.map bfe_value) else "panic"
+      match ty with
+      | .u64 => some (out (codec_u64_encode_ok n) (codec_u64_encode n))
+      | .u128 => some (out (codec_u128_encode_ok n) (codec_u128_encode n))
+      | .u8 => some (out (codec_u8_encode_ok n) (codec_u8_encode n))
+      | .u16 => some (out (codec_u16_encode_ok n) (codec_u16_encode n))
+      | .u32 => some (out (codec_u32_encode_ok n) (codec_u32_encode n))
+      | .bool => some (out (codec_bool_encode_ok (n != 0)) (codec_bool_encode (n != 0)))
+      | .bfe => some (out (codec_bfe_encode_ok (bfe_new n)) (codec_bfe_encode (bfe_new n)))
+      | _ => none
+  | "dec", [t, s] => do
+      let ty ← parseTy t
+      let seq ← s.natList?
+      if !(seq.all (· < TF.Gen.P)) then none else
+      let r := seq.map bfe_new
+      match ty with
+      | .u64 => some (fmtGenNat (codec_u64_decode_ok r) (codec_u64_decode r))
+      | .u128 => some (fmtGenNat (codec_u128_decode_ok r) (codec_u128_decode r))
+      | .u8 => some (fmtGenNat (codec_u8_decode_ok r) (codec_u8_decode r))
+      | .u16 => some (fmtGenNat (codec_u16_decode_ok r) (codec_u16_decode r))
+      | .u32 => some (fmtGenNat (codec_u32_decode_ok r) (codec_u32_decode r))
+      | .bool => some (if codec_bool_decode_ok r then
+          (match codec_bool_decode r with | .ok b => (if b then "ok:1" else "ok:0") | .error _ => "err") else "panic")
+      | .bfe => some (if codec_bfe_decode_ok r then
+          (match codec_bfe_decode r with | .ok w => s!"ok:{bfe_value w}" | .error _ => "err") else "panic")
+      | _ => none
+  | _, _ => none
+
+/-- the family handler: the hand model's reply; where the regenerated code has an opinion (leaf types) it must be the same -/
+def codec : Handler := fun op args =>
+  match run op args, leafGen op args with
+  | some m, some g => some (if g == m then m else "GEN-MISMATCH gen=" ++ g ++ " model=" ++ m)
+  | m, _ => m
 
 /-- family `derive`: `derive <op> <TypeName> <tydesc> …` — the name selects the twin Rust types in the harness; the
     model only needs the shape -/
